@@ -181,10 +181,12 @@ def check_markup(markup, only=None):
     """-> failure dict or None.  Expected sets: html.parser's own events classified by the spec."""
     ev = tokenise(markup)
     vis, hid = classify(ev)
-    body = f"<html><body>{markup}</body></html>"
+    body = markup
     for name, fn in WRAPPERS:
         if only and not any(o in name for o in only):
             continue
+        if "<title>" in markup and "epub" not in name:
+            continue        # only the EPUB chapter keeps the <title> text with the chapter
         try:
             out = fn(body)
         except Exception as e:  # noqa
@@ -208,7 +210,7 @@ def witness_events(w, kind, t_override=None):
         if tag.lower() == T:
             tag = t_override
         T = t_override
-    ev = [("S", "p"), ("D", "VISpre"), ("E", "p")]
+    ev = [("D", "VISroot"), ("S", "p"), ("D", "VISpre"), ("E", "p")]      # text before any element, then a block
     rho = None
     # a remembered tag outside any region is what an earlier, already closed region leaves behind
     for f, v in sorted((w.get("self") or {}).items()):
@@ -308,7 +310,9 @@ def grammar():
         docs.append(f"<p>VISa</p><{r} src=x></{r}><p>VISb</p>")
         for c1, c2 in itertools.product(contents[:9], repeat=2):
             docs.append(f"<p>VISa</p><{r}>{c1}{c2}</{r}><p>VISb</p>")
-    docs += ["<p>VISa</p><!-- HIDa --><p>VISb</p>", "<p>VISa<!-- <p>HIDa</p> -->VISb</p>", "<p>VISa</p><![CDATA[HIDa]]><p>VISb</p>",
+    docs += ["VISa<noscript><img></noscript>VISb<p>VISc</p>", "<html><body>VISa<p>VISb</p><script>HIDa</script>VISc</body></html>",
+             "<html><head><title>VISt</title><style>HIDa</style></head><body><p>VISa</p></body></html>",
+             "<p>VISa</p><!-- HIDa --><p>VISb</p>", "<p>VISa<!-- <p>HIDa</p> -->VISb</p>", "<p>VISa</p><![CDATA[HIDa]]><p>VISb</p>",
              "<p>VISa</p><embed src=x><p>VISb</p><p>VISc</p>", "<p>VISa</p><embed src=x>VISb</b><p>VISc</p>",
              "<table><tr><td>VISa<noscript><img></noscript></td><td>VISb</td></tr></table><p>VISc</p>"]
     return docs
